@@ -2,12 +2,12 @@
 LEVEL = "other"
 EXPLANATION = ("Proved: pair_to_integer / integer_to_pair (key = min*N + max without int64 overflow, inverse of each other), "
                "tsk_identity_segments_get_key validation, tsk_ibd_finder_passes_filters (passes iff a != b, span > min_span and, "
-               "between sets, different sets), the sample-list validators (C09). Bounded: full ibd_segments against maximal "
+               "between sets, different sets), the sample-list validators (C09), the default sample set (nodes with the sample bit, whatever other flag bits they carry). Bounded: full ibd_segments against maximal "
                "shared-path intervals recomputed position by position (within / between, min_span incl. exact spans, "
                "max_time incl. node times, aggregates with and without store options).")
 C_FUNCS = [("tables.c", "pair_to_integer"), ("tables.c", "integer_to_pair"), ("tables.c", "tsk_identity_segments_get_key"),
            ("tables.c", "tsk_ibd_finder_passes_filters"), ("tables.c", "tsk_ibd_finder_init_samples_from_set"),
-           ("tables.c", "tsk_ibd_finder_init_between")]
+           ("tables.c", "tsk_ibd_finder_init_between"), ("tables.c", "tsk_ibd_finder_init_samples_from_nodes")]
 BOUNDED = [{"name": "ibd_vs_paths", "module": "standins.c19_ibd", "timeout": 900, "asan": "thorough"}]
 UNVERIFIED = ["tsk_ibd_finder_run / find_ibd_segments / add_ancestry, tsk_identity_segments_add_segment, AVL tree (bounded only)"]
 ASSUMPTIONS = ["span and min_span are numbers (not NaN) in passes_filters; double subtraction is uninterpreted"]
